@@ -49,8 +49,8 @@ def run(ctx):
         "domain matcher: Props.lean uses a definition of the documented meaning (full / suffix / keyword on ToLower(TrimSuffix(name,'.'))); Compose.lean replaces it by C11's bit-exact packed-trie model through the builder's AddSet calls (theorem request/response_match_real_is_first_match), leaving as trusted only what C11 trusts: the Aho-Corasick library contract and Go regexp (oracle)",
         "pkg/trie CIDR trie: numeric containment in Props.lean; Compose.lean goes through C12's trieMatch (HasPrefix contract over Prefix2bin128 strings)",
         "the rule optimizers of dns.New (MergeAndSort, Deduplicate): not modelled; their output is compared decision-by-decision with the unoptimized program on every generated question/answer (C04 proves them)",
-        "the response cache is modelled as a key → records map of fresh entries (expiry, stale serving, LRU are C08's subject); upstream transports are fake forwarders",
-        "miekg/dns Pack/Unpack/CanonicalName; names are ASCII without backslash escapes",
+        "the response cache is modelled as a key → records map threaded through a scenario: fresh entries, entries seeded stale (optimistic cache: served + refreshed), TTL-0 answers (never served); expiry timing, LRU and TTL rewriting are C08's subject; upstream transports are fake forwarders (identity bound at creation, incl. the address dialled)",
+        "miekg/dns Pack/Unpack/CanonicalName; names are ASCII in miekg presentation form (wire names with `@` arrive as `\\@`); the controller skeleton handle/dialSend/handleOpt is hand-written: its theorems about single steps are unfoldings, the behavioural tie and the source-structure guard (decisive order facts extracted by translators/c07skel) carry the correspondence",
     ]
     # source-structure guard: the decisive order facts of the controller's request path are recomputed from the Go
     # source under test (go/ast translator) and compared with the snapshot the model was written against
@@ -149,7 +149,7 @@ def run(ctx):
         state["evaluations"] += len(ol)
         for op, im, mo in zip(ol, read_lines(impl), read_lines(model)):
             k = op.split(" ", 1)[0]
-            if k in ("rq", "rs", "ask", "dq", "pair"):
+            if k in ("rq", "rs", "ask", "dq", "pair", "pref"):
                 distinct.add(op)
             if "MODEL-SPLIT" in mo:
                 ctx.proof_failures.append("driver: scan and first-match specification disagree on " + op[:300])
@@ -183,7 +183,7 @@ def run(ctx):
                  "answer.a-record-without-address": 100, "upstream.does-not-resolve": 5, "cfg.many-upstreams": 1,
                  "ask.repeats-earlier-question": 300, "upstream.shares-address.differs-in-hostname": 30,
                  "ask.upstream-queries.3": 100, "ask.reply.answers": 300, "ask.two-questions": 40,
-                 "cfg.ip-version-prefer": 5, "ask.qtype-from-key-table": 100},
+                 "cfg.ip-version-prefer": 5, "ask.qtype-from-key-table": 100, "op.pref": 8},
         "c07d": {"op.dq": 500, "dq.decision.upstream": 200, "dq.decision.passthrough": 200},
     }
     if not any(os.environ.get(v) for v in ("C07_NCFG", "C07_NCFG_CTL")):
@@ -198,13 +198,14 @@ def run(ctx):
     ctx.cov["diagnostic_only_differences"] = diag
     ctx.cov["decision_classes"] = dict(sorted(classes.items(), key=lambda kv: -kv[1])[:80])
     ctx.assumptions = [
-        "rule lists, questions, answers and upstream behaviours are generated (seeded): 0..7 rules quick / 0..12 thorough per list (4 % long lists of up to 42 / 72), 1..3 conditions per rule, 1..6 parameters per condition, 0..8 upstreams",
-        "question names are ASCII from ValidDomainChars plus upper case, without '^'; the controller harness only sends fully-qualified names (as they come off the wire)",
+        "rule lists, questions, answers and upstream behaviours are generated (seeded): 0..7 rules quick / 0..12 thorough per list (4 % long lists of up to 42 / 72), 1..3 conditions per rule, 1..6 parameters per condition, 0..8 upstreams in the matcher stream, 0..4 (3 %: 12/40/100, thorough also 251) in the controller stream",
+        "question names: fixed label vocabulary plus derived names, any case, bytes | * $ ^ @ in 6 %, IP literals in 2 %; the controller harness only sends fully-qualified names in wire form; one question per query (two-question queries must be refused), classes IN/CH/ANY",
         "geosite/geoip parameters (dat files) are not generated",
     ]
     return ctx.finish(
         rule="ops = req/resp (one compiled rule list: the dump of the real matches array and domain-set table is compared "
              "with the model's), rq/rs (one question / one answer through the real Match, plain and with dns.New's "
-             "optimizer chain), cfg, ask (one client message through the real DnsController with fake upstreams: upstream "
-             "queries in order, reply, cache contents afterwards). distinct_nontrivial = distinct rq/rs/ask lines",
+             "optimizer chain), cfg, ask / pair / pref (client messages through the real DnsController with fake upstreams: upstream "
+             "queries in order and reply DECIDE; cache contents, error class and the compiled-array dump are diagnostics), dq (dae's "
+             "own look-ups through daedns). distinct_nontrivial = distinct rq/rs/ask/dq/pair/pref lines",
         evaluations=state["evaluations"], distinct=len(distinct))
